@@ -54,10 +54,11 @@ fn ref_decode(body: &[u8], p: &V4Params, seed: &str, declared_len: Option<u64>) 
         let line = &line[..line.len() - 2];
         let Some(sc) = line.iter().position(|b| *b == b';') else { return (out, RefEnd::Error("chunk header without ';'")) };
         let size_hex = &line[..sc];
-        if size_hex.is_empty() || size_hex.len() > 8 || !size_hex.iter().all(u8::is_ascii_hexdigit) {
+        // a hex number: any number of digits, leading zeros mean nothing (a size beyond 2^63 cannot be a chunk)
+        if size_hex.is_empty() || !size_hex.iter().all(u8::is_ascii_hexdigit) {
             return (out, RefEnd::Error("bad chunk size"));
         }
-        let size = usize::from_str_radix(std::str::from_utf8(size_hex).unwrap(), 16).unwrap();
+        let Ok(size) = usize::from_str_radix(std::str::from_utf8(size_hex).unwrap(), 16) else { return (out, RefEnd::Error("bad chunk size")) };
         let rest = &line[sc..];
         let Some(sig) = rest.strip_prefix(b";chunk-signature=") else { return (out, RefEnd::Error("bad chunk extension")) };
         if sig.len() != 64 {
@@ -107,6 +108,8 @@ pub struct Upload {
     pub seed: String,
     pub chunks: Vec<Vec<u8>>,
     pub metas: Vec<EncodedChunk>,
+    /// minimum number of hex digits of the size fields (0: as short as possible)
+    pub pad: usize,
 }
 
 pub fn gen_upload(g: &mut Rng, secrets: &HashMap<String, String>, small: bool) -> Upload {
@@ -147,13 +150,15 @@ pub fn gen_upload_to(g: &mut Rng, secrets: &HashMap<String, String>, small: bool
     };
     let mut req = RawRequest::new(method, &uri).header("host", "s3.verif.example:9000").header("content-encoding", "aws-chunked").header("x-amz-decoded-content-length", &total.to_string());
     // the encoded length is known before signing
-    let enc_len: usize = chunks.iter().chain(std::iter::once(&Vec::new())).map(|c| format!("{:x}", c.len()).len() + 17 + 64 + 2 + c.len() + 2).sum();
+    // one upload in five writes its size fields with leading zeros (2 .. 16 digits)
+    let pad = if g.chance(1, 5) { *g.pick(&[2usize, 4, 7, 8, 9, 16]) } else { 0 };
+    let enc_len: usize = chunks.iter().chain(std::iter::once(&Vec::new())).map(|c| format!("{:0pad$x}", c.len()).len() + 17 + 64 + 2 + c.len() + 2).sum();
     req.headers.push(("content-length".into(), enc_len.to_string().into_bytes()));
     let seed = v4_sign_header(&mut req, &params, STREAMING, &["content-encoding", "content-length"]);
-    let (body, metas) = v4_encode_chunks(&params, &seed, &chunks);
+    let (body, metas) = v4_encode_chunks_padded(&params, &seed, &chunks, pad);
     assert_eq!(body.len(), enc_len);
     req.body = body;
-    Upload { req, params, seed, chunks, metas }
+    Upload { req, params, seed, chunks, metas, pad }
 }
 
 struct Seen {
@@ -485,7 +490,7 @@ fn faults(g: &mut Rng, u: &Upload, other: &Upload, every_offset: bool) -> Vec<(S
         r.headers.push(("x-amz-decoded-content-length".into(), v.to_string().into_bytes()));
         let body_save = std::mem::take(&mut r.body);
         let seed = v4_sign_header(&mut r, &u.params, STREAMING, &["content-encoding", "content-length"]);
-        let (b, _) = v4_encode_chunks(&u.params, &seed, &u.chunks);
+        let (b, _) = v4_encode_chunks_padded(&u.params, &seed, &u.chunks, u.pad);
         debug_assert_eq!(b.len(), body_save.len());
         r.body = b;
         out.push((format!("wrong-decoded-length/{name}"), "header".into(), r));
